@@ -199,6 +199,28 @@ func C12(c *core.Ctx) {
 				c.Report(core.Finding{Sig: "resolve:" + row + ":" + class + ":" + origin, Detail: fmt.Sprintf("%s: the service extending it resolves to %q; the rules define %q", key, g2, want), Replay: rep})
 			}
 		}
+		// a relative project directory: the base directories are relative too, and every value is still joined exactly once
+		if class == "rel" && enforced && row != "label_file" {
+			cwd, _ := os.Getwd()
+			if os.Chdir(filepath.Join(R, "r1")) == nil {
+				pr, errR := safeLoad(filepath.Join("r2", "proj"), nil, []namedDoc{{Name: filepath.Join("r2", "proj", "compose.yaml")}})
+				_ = os.Chdir(cwd)
+				wantRel := strings.TrimPrefix(want, filepath.Join(R, "r1")+"/")
+				c.Eval(key+" [relative project directory]", true)
+				if errR != nil {
+					c.Report(core.Finding{Sig: "load-error-relative-wd:" + row, Detail: key + " does not load from a relative project directory: " + errR.Error(), Replay: rep})
+				} else {
+					for _, sv := range []string{svcName, also} {
+						if sv == "" {
+							continue
+						}
+						if g, ok := c12Extract(pr, row, sv); !ok || g != wantRel {
+							c.Report(core.Finding{Sig: "resolve-relative-wd:" + row + ":" + origin, Detail: fmt.Sprintf("%s with the project directory given as r2/proj: service %s resolves to %q; the rules define %q", key, sv, g, wantRel), Replay: rep})
+						}
+					}
+				}
+			}
+		}
 		if origin == "main" {
 			// resolution off: left as written
 			p2, err2 := safeLoad(proj, nil, []namedDoc{{Name: filepath.Join(proj, "compose.yaml")}}, func(o *loader.Options) { o.ResolvePaths = false })
